@@ -175,4 +175,23 @@ def render (d : RowData) : Row :=
     reverse := flag d.reverse
     potentialContaminant := flag d.contaminant }
 
+/-! ### specification side (used by the theorems of `Props/C06.lean`, never by the driver) -/
+
+/-- the evidence entries at or below the cutoff whose protein list mentions `p` (membership: a
+    protein listed several times for a peptide still gives one entry) -/
+def supporting (cutoff : Option Rat) (info : List Evidence) (p : String) : List Evidence :=
+  info.filter (fun e => within cutoff e && decide (p ∈ e.proteins))
+
+/-- "its number of distinct such peptides" -/
+def distinctCount (cutoff : Option Rat) (info : List Evidence) (p : String) : Nat :=
+  ((supporting cutoff info p).map (·.peptide)).eraseDups.length
+
+/-- the hypothesis under which the count is a function of the (peptide, protein) incidences: entries
+    of a group's evidence that carry the same peptide mention the same proteins.  Inside the pipeline
+    a group's evidence holds every peptide once (it is built from a dict), which implies this
+    (`consistent_of_nodup`); `_get_peptide_counts` only looks at a peptide's first occurrence in
+    `(PEP, peptide, proteins)` order, so without it the count depends on that order -/
+def Consistent (info : List Evidence) : Prop :=
+  ∀ e ∈ info, ∀ e' ∈ info, e.peptide = e'.peptide → ∀ p, (p ∈ e.proteins ↔ p ∈ e'.proteins)
+
 end PgFdr.C06
